@@ -2,7 +2,7 @@ import SeqVerif.Model.ProxyFrac
 import SeqVerif.Model.ActiveConc
 import SeqVerif.Extracted.C07
 /-!
-The three places where the C07 models follow the source through extracted facts (re-read on every run): does
+The four places where the C07 models follow the source through extracted facts (re-read on every run): does
 `proxyFrac.Append` give the WaitGroup back when the write failed, in which direction `addLIDsToTokens` walks the
 tokens, does `GetBlocksOffsets` re-read `DocBlocks`.  Theorems are proved for every configuration; the driver and
 the `c07_cur_*` corollaries use this one.
@@ -16,6 +16,6 @@ def fixedQueueLoop : String := "for i := len(tlids) - 1; i >= 0; i--"
 def fx : Bool := decide (appendErrorPath = ["indexWg.Done"])
 
 /-- configuration of `SV.ActiveConc.step` -/
-def cfg : SV.ActiveConc.Cfg := ⟨decide (queueLoop = fixedQueueLoop), fetchBlocksRefresh⟩
+def cfg : SV.ActiveConc.Cfg := ⟨decide (queueLoop = fixedQueueLoop), fetchBlocksRefresh, tokenListAppendLocked⟩
 
 end SV.C07
